@@ -18,12 +18,12 @@ for d, dec, enc in (('res', 'out_decompressor', 'response'), ('req', 'req_decomp
                    sub='%s decompressor sink: entity_len += d->len; the hooks see exactly (d->data, d->len, tx) once; HTP_OK <=> hooks OK and entity_len <= max(compression_bomb_limit, 2048*message_len); outside the bound => HTP_ERROR + ERROR log and nothing else' % enc))
 
 # ---- unit 2: the inflate loop ---------------------------------------------------------------------------------------------
-D2 = {'quick': {'C07_UNIT_DECOMPRESS': 1, 'C07_INCAP': 65536, 'KNOWN_F_C07_STALE_REDELIVERY': 1}, 'thorough': {'C07_INCAP': '((size_t) UINT32_MAX + 4096)'}}
+D2 = {'quick': {'C07_UNIT_DECOMPRESS': 1, 'C07_INCAP': 65536, 'KNOWN_F_C07_STALE_REDELIVERY': 1, 'C07_RESTART_MIN': 3}, 'thorough': {'C07_INCAP': '((size_t) UINT32_MAX + 4096)'}}
 ZSTUBS = ['inflate', 'inflateInit2_', 'inflateEnd', 'crc32', 'LzmaDec_Allocate', 'LzmaDec_Init', 'LzmaDec_Free', 'LzmaDec_DecodeToBuf']
 A2 = ['zlib (inflate, inflateInit2_, inflateEnd, crc32) and the LZMA SDK (LzmaDec_Allocate/Init/Free/DecodeToBuf) replaced by frame contracts: they consume a prefix of the input window, fill a prefix of the output window and return ANY code; their call-site requirements (valid windows) are proved',
       'for the variant only: inflate == Z_OK / LzmaDec_DecodeToBuf == SZ_OK implies progress (input consumed or output produced), and the sink accepts a bounded number of bytes per call (ghost budget = the bomb inequality of unit 1 with message_len fixed during the call)',
       'downstream sink (drec->super.callback) replaced by a stub returning any status; single / innermost layer (next == NULL): the recursive next-layer call is unreachable in this unit (see c07_decompress_layers)',
-      'the `goto restart` back edge is unwound 4 times before contract instrumentation; the unwinding assertion (restart counter < 3 and incremented per restart) is part of the obligations, so the bound is proved, not assumed',
+      'the `goto restart` back edge (no loop-contract syntax exists for goto loops) is unwound (4 - restart_min) times before contract instrumentation; the unwinding assertion is part of the obligations, so the bound is proved from the restart counter, not assumed',
       'input chunk <= C07_INCAP bytes; decompressor object well-formed on entry (output cursor inside the 8 KiB buffer, zlib_initialized in 0..4, header_len <= 14) - re-established on every exit (P0)',
       'KNOWN_F_C07_STALE_REDELIVERY defined: obligation S4 (no non-empty delivery on a stream that was dead on entry) is claimed only when the output window is not full / at end-of-body empty; the probe run without the macro fails (finding c07_stale_buffer_redelivery)']
 LOOP2 = dict(
@@ -34,11 +34,14 @@ LOOP2 = dict(
          'drec->zlib_initialized == HTP_COMPRESSION_LZMA ==> rc == 0',
          'g_c07_cb_failed == 0', 'C07_INV_DEAD(drec)'],
     dec='drec->stream.avail_in, g_c07_budget, drec->stream.avail_out')
-UNITS.append(U(name='c07_decompress', props=['C07', 'C01'], kind='contract', src=['htp_decompressors.c'], enforce='htp_gzip_decompressor_decompress',
-               replace=['c07_sink'] + ZSTUBS + ['htp_gzip_decompressor_restart', 'memcpy/contract_c07_memcpy', 'htp_log/contract_c07_htp_log'],
-               contracts_inc=['c07_decomp.h'],
-               pre_instrument=['--unwindset', 'htp_gzip_decompressor_decompress.0:4', '--unwinding-assertions'],
-               loops={'htp_decompressors.c': {'htp_gzip_decompressor_decompress': {'count': 1, 0: LOOP2}}},
-               harness='void HARNESS(void) { htp_decompressor_t *z; htp_tx_data_t *d; htp_gzip_decompressor_decompress(z, d); CANARY(); }',
-               defs=D2, min_obl=200, timeout=(150, 600), objbits=12, assumes=A2,
-               sub='one decompressor layer, any zlib/LZMA behaviour: every delivery is <= 8192 bytes of the own buffer, the untouched input, or the empty end marker; a refused delivery ends the call at once (non-OK, no further delivery, stream dead); dead stream + input => ERROR and no delivery; passthrough delivers the input once; all buffer arithmetic memory-safe; the loop terminates'))
+for nm, rmin, th in (('c07_decompress', 3, False), ('c07_decompress_restart1', 2, False)):
+    D2x = {'quick': dict(D2['quick'], C07_RESTART_MIN=rmin), 'thorough': D2['thorough']}
+    UNITS.append(U(name=nm, props=['C07', 'C01'], kind='contract', src=['htp_decompressors.c'], enforce='htp_gzip_decompressor_decompress',
+                   replace=['c07_sink'] + ZSTUBS + ['htp_gzip_decompressor_restart', 'memcpy/contract_c07_memcpy', 'htp_log/contract_c07_htp_log'],
+                   contracts_inc=['c07_decomp.h'], thorough_only=th,
+                   pre_instrument=['--unwindset', 'htp_gzip_decompressor_decompress.0:%d' % (4 - rmin), '--unwinding-assertions'],
+                   loops={'htp_decompressors.c': {'htp_gzip_decompressor_decompress': {'count': 1, 0: LOOP2}}},
+                   harness='void HARNESS(void) { htp_decompressor_t *z; htp_tx_data_t *d; htp_gzip_decompressor_decompress(z, d); CANARY(); }',
+                   defs=D2x, min_obl=200, timeout=(150, 600), objbits=12,
+                   assumes=A2 + ['entry: drec->restart >= %d, i.e. at most %d re-entries through `goto restart` in this call' % (rmin, 3 - rmin)],
+                   sub='one decompressor layer, any zlib/LZMA behaviour, restart counter >= %d on entry: every delivery is <= 8192 bytes of the own buffer, the untouched input, or the empty end marker; a refused delivery ends the call at once (non-OK, no further delivery, stream dead); dead stream + input => ERROR and no delivery; passthrough delivers the input once; all buffer arithmetic memory-safe; the inflate loop terminates' % rmin))
